@@ -607,3 +607,12 @@ Example C03_ex_localisation :
               pg_info := mkinfo 0 23 |} in
   tree_errors p = [shift_e (10 + (5 + (2 + 0))) e].
 Proof. vm_compute. reflexivity. Qed.
+
+(* "Every range ever published lies inside the document", for EVERY text (Proofs/RangeProofs.v): the
+   hypothesis of C03_ranges_inside is discharged for the trees AnalyzedSource::new produces. *)
+From Spl Require Proofs.RangeProofs.
+Theorem C03_every_published_range_inside : forall t,
+  exists d l, new_doc_res t = ODone d /\ doc_errors_res d = ROk l /\
+              Forall (fun y => (fst (fst y) <= snd (fst y) <= blen t)%N) l.
+Proof. exact RangeProofs.analysis_total. Qed.
+Print Assumptions C03_every_published_range_inside.
